@@ -20,7 +20,7 @@ class Inconclusive(BaseException):
 
 
 class Stats:
-    FIELDS = ('paths', 'forks', 'concretisations', 'queries', 'unsat', 'sat', 'unknown', 'solver_s',
+    FIELDS = ('paths', 'forks', 'concretisations', 'decisions', 'queries', 'unsat', 'sat', 'unknown', 'solver_s',
               'obligations', 'discharged')
 
     def __init__(self):
@@ -245,6 +245,7 @@ class Engine:
             except Exception as e:  # noqa
                 res = ('exc', e)
             self.st.paths += 1
+            self.st.decisions += len(self.decisions)
             pc = list(self.pc())
             if keep_pcs:
                 self.all_pcs.append(z3.And(self.conds) if self.conds else z3.BoolVal(True))
